@@ -566,6 +566,7 @@ pub enum ClientMessage {
         id: String,
         /// The GraphQL Request - this can be modified by protocol implementors
         /// to add files uploads.
+        #[serde(deserialize_with = "crate::request::deserialize_request_object")]
         payload: Request,
     },
     /// The end of a Websocket subscription
